@@ -70,6 +70,16 @@ def main():
         seeds = [s for s in seeds if any(s.startswith(p) for p in prefixes)]
     cl = claimed()
 
+    def retired(s):
+        try:
+            with open(os.path.join(VERIF, 'seeded', s, 'meta.json')) as fh:
+                return bool(json.load(fh).get('retired'))
+        except (OSError, ValueError):
+            return False
+    for s in [s for s in seeds if retired(s)]:
+        print('%-8s retired (see meta.json)' % s)
+    seeds = [s for s in seeds if not retired(s)]
+
     def job(s):
         own = s.split('-')[0]
         has = os.path.exists(os.path.join(VERIF, 'sa', 'checks', own.lower() + '.py'))
